@@ -582,6 +582,9 @@ pub fn apply_maps(
         nw.unions.insert(mu[u], members.iter().map(|v| mv[v]).collect());
     }
     nw.filter_reversed = w.filter_reversed;
+    for (n, (t, alt)) in &w.alt_rank {
+        nw.alt_rank.insert(mn[n], (*t, alt.iter().map(|s| ms[s]).collect()));
+    }
     *w = nw;
     for p in problems.iter_mut() {
         p.requirements = p.requirements.iter().map(mreq).collect();
@@ -1183,6 +1186,22 @@ pub fn huge_handle_ids(rng: &mut Rng, w: &mut World, problems: &mut [ProblemSpec
     }
     let mt = spread(rng, strs.into_iter().collect());
     apply_maps(w, problems, &names, &solv, &mv, &mu, &mt);
+}
+
+/// Slice-dependent ranking: for some packages with at least three candidates the provider ranks slices of at least
+/// `threshold` candidates by another permutation than shorter ones.
+pub fn slice_dependent_ranking(rng: &mut Rng, w: &mut World) {
+    let names: Vec<u32> = w.packages.keys().copied().collect();
+    for n in names {
+        let p = &w.packages[&n];
+        if p.missing || p.candidates.len() < 3 || !rng.chance(1, 2) {
+            continue;
+        }
+        let mut alt = p.rank.clone();
+        rng.shuffle(&mut alt);
+        let t = rng.range(2, p.candidates.len());
+        w.alt_rank.insert(n, (t, alt));
+    }
 }
 
 /// Wide fan-out family: a solvable (the root, or a single solvable the root requires) with `width` requirements on
